@@ -190,6 +190,8 @@ def run(ctx):
         "renumbered_with_word_sorting_before_<s>": sum(1 for c in cases if (c.renumber or c.intermediate) and
                                                       any(kn.murmur64a(t) < kn.murmur64a(b"<s>") for t in set(c.data.split()) if t not in kn.SPECIALS)),
         "interpolate_unigrams_0": sum(1 for c in cases if not c.interp),
+        "short_and_interrupted_io(shim, every read/write/pread/pwrite)": sum(1 for c in cases if c.io),
+        "arpa_to_a_pipe_with_short_writes": sum(1 for c in cases if c.io and c.io[2]),
         "word_longer_than_8192_bytes": sum(1 for c in cases if any(len(t) > 8192 for t in c.data.split())),
         "word_of_8191_or_8192_bytes": sum(1 for c in cases if any(len(t) in (8191, 8192) for t in c.data.split()))}
     ctx.count("evaluations", len(cases))
